@@ -192,7 +192,10 @@ RelOk(p) ==
         /\ cache' = [cache EXCEPT ![p] = @ \ {j}]
         /\ jobst' = [jobst EXCEPT ![j] = "released"]
   /\ cs' = [cs EXCEPT ![p] = None] /\ ipc' = "free"
-  /\ notify' = [notify EXCEPT ![p] = @ \cup {k \in Jobs : Owner[k] = p /\ jobst[k] \in Waiting}]     \* aio_notify()
+  (* aio_notify() -- which a release that found its file missing used to skip (the deletion event had done it; since events
+     bearing the name of a token held are ignored, the release notifies in every case: part of the repair F28) *)
+  /\ notify' = IF cs[p].step = "deleted" \/ FixF28
+               THEN [notify EXCEPT ![p] = @ \cup {k \in Jobs : Owner[k] = p /\ jobst[k] \in Waiting}] ELSE notify
   /\ UNCHANGED <<files, pend, alive, obs, watching, dstat, reclaiming, wl, info>>
 
 (* aio_notify after a release / a deleted event: every waiting dependency of this process is re-checked *)
